@@ -49,6 +49,7 @@ fn main() {
         "sched" => scen::sched::main(&args),
         "crash" => scen::crash::main(&args),
         "fixture" => scen::fixture::main(&args),
+        "maxrow" => scen::maxrow::main(&args),
         "mkfixture" => scen::fixture::make(&args),
         "crashchild" => scen::crash::child(&args),
         _ => {
